@@ -9,15 +9,27 @@ TIMEOUT = 180.0
 ACCEPTED_ERRORS = ("timeout",)
 
 
+REAL_NAMES = {"A": "Order received", "B": "svc.payment/charge",
+              "C": "GET /api/v1/items", "D": "db-write_2", "E": "x",
+              "F": "Step 10", "G": "notify (email)", "H": "a:b"}
+
+
 def build(tier, ctx):
     n = 5 if tier == "quick" else 7
     defs = pvcommon.scope_defs(ctx["repo"], n)
     defs += [("F+", d) for d in fragment.F_plus_extra(n - 1)]
     defs += pvcommon.extended_defs(5 if tier == "quick" else 6)
     defs += pvcommon.skeleton_defs(tier)
-    return [{"name": nm, "defn": dsl.to_list(d), "k": 2,
-             "pres": ["canonical", "reversed"], "mode": "c05"}
-            for nm, d in defs]
+    tasks = [{"name": nm, "defn": dsl.to_list(d), "k": 2,
+              "pres": ["canonical", "reversed"], "mode": "c05"}
+             for nm, d in defs]
+    # the same small definitions under realistic event names
+    for nm, d in pvcommon.scope_defs(ctx["repo"], 4 if tier == "quick" else 5,
+                                     with_corpus=False):
+        tasks.append({"name": nm, "defn": dsl.to_list(d), "k": 2,
+                      "pres": ["canonical"], "mode": "c05",
+                      "names": REAL_NAMES})
+    return tasks
 
 
 def collect(tier, tasks, results, ctx):
